@@ -7,6 +7,7 @@ CONSTANTS
   Icpts <- MCIcpts
   Variant = "required"
   Kinds = {"plain", "bep"}
+  MaxEdits = 0
 INVARIANT TypeOK
 INVARIANT ClampRefines
 INVARIANT NotBelowMinimum
@@ -15,4 +16,5 @@ INVARIANT BepDifference
 INVARIANT BepViaReaction
 INVARIANT BepUandHSameBarrier
 INVARIANT BepOffsetIsForwardBarrier
+INVARIANT EditedEqualsFresh
 CHECK_DEADLOCK FALSE
